@@ -394,6 +394,27 @@ func runC10(w *mon.W) {
 		}
 		want := c10Keys(model)
 		stored := randCase(r, lay.seq, []float64{0, 0.5, 1}[r.Intn(3)])
+		if r.Intn(4) == 0 && len(lay.placed) > 0 {
+			// annotation-style case: upper case throughout, only the recognition sites (or one of them) in lower case
+			b := []byte(lay.seq)
+			only := -1
+			if r.Intn(2) == 0 {
+				only = r.Intn(len(lay.placed))
+			}
+			for si, occ := range lay.placed {
+				if only >= 0 && si != only {
+					continue
+				}
+				for j := 0; j < len(e.geo.Site); j++ {
+					q := (occ.Pos + j) % len(b)
+					if b[q] >= 'A' && b[q] <= 'Z' {
+						b[q] += 32
+					}
+				}
+			}
+			stored = string(b)
+			w.Add("layouts_with_only_the_sites_in_lower_case", 1)
+		}
 		w.Begin(id, fmt.Sprintf("%s circular=%v %s", e, circular, stored))
 		held := c10Judge(w, id, lay, stored, want, "layout")
 		if held && stored != lay.seq {
